@@ -950,12 +950,12 @@ Proof.
     unfold CInv, WFctx. cbn [c_reg c_idx]. rewrite Av, K, A, (Nat.eqb_sym a x).
     split; [split; [split; auto; intros y; rewrite K; auto|]|].
     - destruct (b && Nat.eqb x a) eqn:E; cbn.
-      + rewrite andb_false_r. reflexivity.
+      + rewrite !andb_false_r. reflexivity.
       + rewrite andb_true_r. reflexivity.
     - intros E. apply andb_true_iff in E. destruct E as [-> E]. apply Nat.eqb_eq in E. subst x.
       rewrite A in Eb. symmetry in Eb. apply andb_true_iff in Eb. destruct held; cbn in Eb; intuition congruence. }
   destruct h as [[x|x|x|]|keep]; cbn [hstep rstep acquires releases] in *.
-  - destruct (use_actor (c_reg c) x) as [r' b'] eqn:U. inversion H; subst. destruct (USE x r' eq_refl) as [C N].
+  - destruct (use_actor (c_reg c) x) as [r' b'] eqn:U. inversion H; subst. destruct (USE x r' U) as [C N].
     rewrite andb_false_r. split; auto. split; auto. discriminate.
   - destruct (free_actor (c_reg c) x) as [r' b'] eqn:U. inversion H; subst. rewrite andb_false_r.
     destruct (free_actor_spec _ _ _ _ W U) as [W' [Eb [Av [Ei Ea]]]].
